@@ -517,7 +517,8 @@ class C17(Check):
     rule = ("case = initial state of two configuration directories (absent / empty / .registered / .unregistered / both / planted "
             "symlinks to a file, a dangling path, a file in the other directory, the same-named marker of the other directory, a "
             "directory) x identifier file (absent, canonical, "
-            "un-hyphenated legacy, upper-case, trailing newline, padded, empty, blank, garbage, non-v4) x history of 1-30 (thorough "
+            "un-hyphenated legacy, upper-case, trailing newline, padded, empty, blank, garbage, non-v4, another script's digits) x "
+            "history of 1-30 (thorough "
             "40) operations: generate_machine_id() read / new=True, write_registered_file, write_unregistered_file, delete_*_file, "
             "environment events between operations (marker deleted, symlink planted, directory removed/recreated, subscription "
             "identity appearing/disappearing, identifier file deleted or rewritten externally) x injected faults (n-th write-open / "
